@@ -65,6 +65,7 @@ TSnap ==
   /\ \A t \in tdir : ToSet(Ev.tmpfiles[t]) = DOMAIN tmp[t]
   /\ ToSet(Ev.extras) = extraf
   /\ ToSet(Ev.audits) = DOMAIN audit
+  /\ \A f \in DOMAIN audit : Ev.auditrec[f] = audit[f]      \* lineage on disk = lineage of the specification
   /\ UNCHANGED vars
 
 TraceNext ==
